@@ -25,6 +25,10 @@ def run(job):
     d, checks = job
     out = subprocess.run([os.path.join(HERE, 'tools', 'seeded_matrix.sh'), d] + checks, capture_output=True, text=True)
     return (out.stdout.strip().splitlines() or [''])[-1]
-with ThreadPoolExecutor(3) as ex:
+r7 = set(json.load(open(os.path.join(HERE, 'tools', 'round7.json'))))
+if '--missing' in sys.argv:
+    jobs = [j for j in jobs if not os.path.exists(os.path.join(j[0], 'result.json')) or 'error' in open(os.path.join(j[0], 'result.json')).read()[:20]]
+jobs.sort(key=lambda j: (os.path.basename(j[0]) not in r7, j[0]))     # newest round first
+with ThreadPoolExecutor(int(os.environ.get('CONFIRM_PAR', '4'))) as ex:
     for line in ex.map(run, jobs):
         print(line, flush=True)
